@@ -428,6 +428,38 @@ def _scenario(job):
             g.close()
 
 
+_SNAP = None
+
+
+def spec_snapshot():
+    """spec/Array.tla is shared and edited concurrently: the trace validation of one run uses one private copy of the
+    modules it needs, taken at a moment when they parse (removed by run())"""
+    global _SNAP
+    if _SNAP:
+        return _SNAP
+    import shutil, tempfile
+    os.makedirs(os.path.join(vlib.OUT, "md"), exist_ok=True)
+    for attempt in range(20):
+        d = tempfile.mkdtemp(prefix="C15-spec-", dir=os.path.join(vlib.OUT, "md"))
+        for m in ("Array", "ScrubPlan", "ScrubPlanTrace"):
+            shutil.copy(os.path.join(vlib.SPEC, m + ".tla"), d)
+        ok, out = vlib.sany("ScrubPlanTrace", cwd=d)
+        if ok:
+            _SNAP = d
+            return d
+        shutil.rmtree(d, ignore_errors=True)
+        time.sleep(15)
+    raise vlib.ToolFailure("spec/Array.tla + ScrubPlanTrace.tla do not parse:\n" + out[-2000:])
+
+
+def drop_snapshot():
+    global _SNAP
+    if _SNAP:
+        import shutil
+        shutil.rmtree(_SNAP, ignore_errors=True)
+        _SNAP = None
+
+
 class _Rec:
     def __init__(self, d):
         self.lines, self.vlen, self.names, self._hdr = d["lines"], d["vlen"], set(d["names"]), d["hdr"]
@@ -449,7 +481,7 @@ def validate(scs, tag):
         n = recorder.write_traces(path, [_Rec(s) for s in rest])
         cfg = _cfg("%s-%d" % (tag, part), "SPECIFICATION Spec\nINVARIANT Conforms\nPOSTCONDITION Accepted\nCHECK_DEADLOCK FALSE\n")
         r = run_tlc_retry("ScrubPlanTrace", cfg=cfg, workers=1, env={"TRACE": path}, timeout=900, xmx="4g", extra=NOGEN,
-                          tag="%s-%d" % (tag, part))
+                          tag="%s-%d" % (tag, part), cwd=spec_snapshot())
         states += r.distinct
         if not r.violated:
             if r.error or r.distinct != n:
@@ -635,7 +667,10 @@ def run(tier):
         cov["model_part_skipped"] = True
     else:
         st, tr = model_part(v, tier, cov)
-    st2 = binding_part(v, tier, cov)
+    try:
+        st2 = binding_part(v, tier, cov)
+    finally:
+        drop_snapshot()
     cov["states"] = st + st2
     cov["transitions"] = tr + st2
     cov["exhaustive"] = True
